@@ -60,6 +60,8 @@ _ROOT: contextvars.ContextVar = contextvars.ContextVar("c17_root", default=None)
 _LOG: list | None = None
 _OPNO = 0            # number of the scenario operation being handled (entries of one operation belong together)
 PROBE_MSG = "LOCK"
+# inside invalidate_further() an enabled retrieve command is replaced by the deletion of what it would have read
+REPLACED_BY = {"get": "delete", "incr": "delete", "get_many": "delete_many", "get_match": "delete_match"}
 _MUTE = False        # the harness itself is talking to a backend (loading values): not part of the trace
 
 GEN_CMDS = ("scan", "get_match")
@@ -709,6 +711,9 @@ async def _execute(sc) -> list[dict]:
                 if ctx in state["txoff"]:
                     state["txoff"][ctx] &= fully_off()
                 out["dis"] = {str(bid): b.is_disable(cmd_of[name]) for bid, b in backends.items()}
+                # ... and about the deletion invalidate_further() replaces this read by
+                if name in REPLACED_BY:
+                    out["disdel"] = {str(bid): b.is_disable(cmd_of[REPLACED_BY[name]]) for bid, b in backends.items()}
                 out["isinit"] = {str(bid): bool(b.is_init) for bid, b in backends.items()}
                 out["inv"] = bool(state["inv"].get(ctx, False))
                 n0 = len(_LOG)
